@@ -235,7 +235,7 @@ func checkC09(ctx *core.Ctx, rep *core.Report) {
 			sub = append(sub, s)
 		}
 	}
-	xstate.Explore(ctx, rep, xstate.Options{Seeds: sub, Depth: 1}, func(st *xstate.State) {
+	xstate.Explore(ctx, rep, xstate.Options{Seeds: sub, Depth: 1, NoCompound: ctx.Quick()}, func(st *xstate.State) {
 		if len(st.Path) == 0 {
 			return
 		}
